@@ -638,6 +638,13 @@ func genAPI(r *rand.Rand) (apiCase, []string) { //nolint:gocognit,cyclop
 				s.g = newArrGen(r, c.Size, bk) // a re-bound stream starts afresh
 				bk["unbind"] = true
 			}
+			if s.bound && rd > 0 && r.Intn(20) == 0 {
+				// BindRemoteStream again without UnbindRemoteStream: the new stream starts afresh
+				// (fresh log, no inherited NACK counts)
+				add(4, s.ssrc, 0, 0)
+				s.g = newArrGen(r, c.Size, bk)
+				bk["rebind-without-unbind"] = true
+			}
 			n := r.Intn(9)
 			if r.Intn(6) == 0 {
 				n = 0
